@@ -391,7 +391,7 @@ class Const(Expr):
         self.s = c["s"]
 
     def str_value(self):
-        m = re.match(r'^const "(.*)"$', self.s, re.S)
+        m = re.match(r'^(?:const )?"(.*)"$', self.s, re.S)
         if m:
             return _unescape(m.group(1))
         return None
